@@ -516,6 +516,67 @@ def call(fn):
         return "other", f"{type(e).__name__}: {e}"[:200]
 
 
+FIRSTS = ["id_like", "constant_q", "all_nan_q", "dev_reversed"]
+
+
+def first_sample_shape(X, case):
+    """shapes the sample of the FIRST fit so that this (successful) fit keeps no feature at all"""
+    kind = case.get("first")
+    if X is None or not kind:
+        return X
+    n = len(X)
+    if kind == "id_like":
+        for c in feats_of(case)[1]:
+            X[c] = [f"id_{j}" for j in range(n)]
+    elif kind == "constant_q":
+        for c in feats_of(case)[0]:
+            X[c] = 5.0
+    elif kind == "all_nan_q":
+        for c in feats_of(case)[0]:
+            X[c] = NAN
+    return X  # dev_reversed: the dev sample of the case is the train sample with a reversed target
+
+
+def gen_all_dropped_case(rng, cls, kind):
+    """a second-fit case whose first fit drops every feature"""
+    c = gen_case(rng, cls, "refit", "second_fit", "-")
+    q, cc, _o = FEATS[cls]
+    c["first"] = kind
+    c["perturb"] = "plain"
+    if kind == "id_like":
+        c["feats"] = {"q": [], "c": cc, "o": []}
+    else:
+        c["feats"] = {"q": q[:1], "c": [], "o": []}
+    if kind == "dev_reversed":
+        dev = json.loads(json.dumps(c["train"]))
+        ys = decs(dev["y"])
+        if c["classes"] is None:
+            hi = max(ys)
+            dev["y"] = encs([hi - v for v in ys])
+        else:
+            cl = decs(c["classes"])
+            dev["y"] = encs([cl[len(cl) - 1 - cl.index(v)] for v in ys])
+        c["dev"] = dev
+        if c["new_dev"] is None:
+            c["new_dev"] = json.loads(json.dumps(c["new"]))
+        c["min_freq"] = 0.2
+    else:
+        c["dev"] = c["new_dev"] = None
+    return c
+
+
+def all_dropped_kinds(cls):
+    q, cc, _o = FEATS[cls]
+    ks = []
+    if cc and cls != "CategoricalDiscretizer":
+        ks.append("id_like")
+    if q and cls in CARVERS:
+        ks += ["constant_q", "all_nan_q"]
+        if cls != "MulticlassCarver":  # reversing the class order keeps the middle class as it is
+            ks.append("dev_reversed")
+    return ks
+
+
 def sort_by_value(v):
     if v == "garbage":
         return "foo"
@@ -570,9 +631,12 @@ def run_case(case):
     Xd = yd = None
     if has_dev:
         Xd, yd = frame(case["dev"], case, 1000), target(case["dev"], 1000)
+    X, Xd = first_sample_shape(X, case), first_sample_shape(Xd, case)
     res, err = call(lambda: do_fit(obj, X, y, Xd, yd))
     if res != "ok":
         return {"skip": "first fit failed: " + err}
+    if case.get("first") and len(obj.features) > 0:
+        return {"skip": f"first fit ({case['first']}) kept features {sorted(obj.features)}"}
     before = snapshot(obj, case)
     if any(v.startswith("raised") for v in before.values()):
         return {"skip": "snapshot of the fitted object failed: " + json.dumps(before)[:300]}
@@ -626,7 +690,8 @@ class C19(Prop):
             "(class, entry point, malformed class, variant) triple is generated at least once per run "
             "(quick: once + the second fit of every class with each of 7 second samples — like the first, NaN "
             "where the first had none, id-like features, new / vanished / numeric-looking categories, other "
-            "numeric range —, thorough: 12x); quant_str also as a str cell on a row where another quantitative "
+            "numeric range —, and after a first fit that dropped EVERY feature (id-like qualitative feature; for carvers "
+            "a constant or all-NaN quantitative feature, a dev sample with the reversed target), thorough: 12x); quant_str also as a str cell on a row where another quantitative "
             "feature is NaN; unsupported sort_by drawn from substrings/prefixes/suffixes/case variants/padded forms of "
             "each carver's supported names, '' and None; ordinal features holding numbers (ranking as strings or as "
             "numbers, NaN or not) with an absent int / float / str value, and the all-in-ranking controls; observable: exception class, and for objects "
@@ -668,6 +733,12 @@ class C19(Prop):
                 q, cc, _o = FEATS[cls]
                 c["feats"] = {"q": q if "q" in kinds else [], "c": cc if "c" in kinds else [], "o": []}
                 cases.append(c)
+        # a first fit that drops EVERY feature (id-like qualitative feature; constant / all-NaN quantitative
+        # feature or dev sample contradicting the train sample for carvers): the object is fitted all the same
+        for _ in range(reps):
+            for cls in CLASSES:
+                for kind in all_dropped_kinds(cls):
+                    cases.append(gen_all_dropped_case(rng, cls, kind))
         # carvers first (O5 was observed on BaseCarver.fit), MulticlassCarver without ordinal feature next
         prio = {"BinaryCarver": 0, "ContinuousCarver": 1, "MulticlassCarver": 2}
         cases.sort(key=lambda c: (prio.get(c["cls"], 3) + (1 if c["cls"] == "MulticlassCarver" and c["feats"]["o"] else 0)))
@@ -692,6 +763,8 @@ class C19(Prop):
     def oracle(self, case, out):
         cls, ep, mal, var = case["cls"], case["ep"], case["mal"], case["var"]
         where = f"{cls}.{ep} [{mal}/{var}]"
+        if case.get("first"):
+            where += f" after a successful first fit that dropped every feature ({case['first']})"
         if mal == "none":
             # a valid sample is not a subject of the property; its rejection is left to the model comparison
             if out.get("fitted_before") and not unchanged_all(out):
@@ -796,6 +869,7 @@ class C19(Prop):
         if case["mal"] == "none":
             return None
         return (f"{case['cls']}|{case['ep']}|{case['mal']}|{case['var']}|{case.get('perturb', 'plain')}|"
+                f"{case.get('first') or '-'}|"
                 f"{out.get('outcome')}|{unchanged_all(out)}")
 
     def finding_signatures(self, case, out, msg):
